@@ -17,7 +17,9 @@ IntExprs(t) ==
 Preds(t) ==
     LET iv == Take(VisOfTy(t, "int"), 2)
         bv == Take(VisOfTy(t, "bool"), 1)
+        hv == Take(HidOfTy(t, "int"), 1)
     IN  Flat(MapS(iv, LAMBDA c : <<Fn2("gt", Col(c), LitI(1)), Fn1("is_null", Col(c))>>))
+        \o MapS(hv, LAMBDA c : Fn2("ge", Col(c), LitI(2)))          \* a hidden column through its table-bound reference
         \o MapS(bv, LAMBDA c : Col(c))
         \o MapS(bv, LAMBDA c : Fn1("not", Col(c)))
         \o MapS(Take(PairsOf(iv), 1), LAMBDA p : Fn2("le", Col(p[1]), Col(p[2])))
